@@ -33,6 +33,7 @@ import (
 	"context"
 	"encoding/binary"
 	"fmt"
+	"io"
 	"math/rand"
 	"net"
 	"reflect"
@@ -68,12 +69,17 @@ type c13Reader struct {
 	// the device's own SetReaderConfig ('c'); twoStep: negotiate in two steps (current 1.0.1, max 1.1)
 	early   map[byte][][]byte
 	twoStep bool
-	wmu     sync.Mutex
-	conn    net.Conn
-	ready   chan struct{}
-	once    sync.Once
-	acks    atomic.Int64
-	conns   atomic.Int64
+	// first messages actually sent, one per connection (what must be published for it)
+	fmu   sync.Mutex
+	first []c13First
+	// paused: the reader does not take anything off the wire (its receive side is stalled)
+	paused atomic.Bool
+	wmu    sync.Mutex
+	conn   net.Conn
+	ready  chan struct{}
+	once   sync.Once
+	acks   atomic.Int64
+	conns  atomic.Int64
 	// modes: how the first connections go wrong, one character per connection, before the
 	// normal one: 's' the device's SetReaderConfig is answered with an error status, 'x' the
 	// connection drops right after the connection event, 'y' it drops when SetReaderConfig
@@ -81,6 +87,63 @@ type c13Reader struct {
 	modes    string
 	stallGRC atomic.Bool // answer the next GetReaderConfig in two pieces, 21 s apart
 	stall    time.Duration
+}
+
+type c13First struct {
+	typ     int
+	payload []byte
+}
+
+// c13Gated is the reader's end of a connection whose Read waits while the reader is paused
+type c13Gated struct {
+	net.Conn
+	rd *c13Reader
+}
+
+func (g c13Gated) Read(b []byte) (int, error) {
+	for g.rd.paused.Load() {
+		time.Sleep(time.Millisecond)
+	}
+	return g.Conn.Read(b)
+}
+
+// first message of connection n of device d for a given mode: a successful connection event, or
+// ('1'..'4') a ReaderEventNotification whose ConnectionAttemptEvent reports a failed attempt
+// (another connection exists, reader/client initiated; failed for another reason; attempted
+// again), with further event parameters attached for the even ones, or ('n') an event without
+// any ConnectionAttemptEvent, or ('o') an ROAccessReport
+func c13FirstMessage(d, n int, mode byte) c13First {
+	utc := c13ConnUTC(d, n)
+	ts := []byte{0x00, 0x80, 0x00, 0x0C, 0, 0, 0, 0, 0, 0, 0, 0}
+	binary.BigEndian.PutUint64(ts[4:], utc)
+	ren := func(params ...[]byte) c13First {
+		body := append([]byte{}, ts...)
+		for _, p := range params {
+			body = append(body, p...)
+		}
+		b := append([]byte{0x00, 0xF6, byte((len(body) + 4) >> 8), byte(len(body) + 4)}, body...)
+		return c13First{c15MsgReaderEventNotification, b}
+	}
+	gpi := []byte{0x00, 0xF8, 0x00, 0x07, 0x00, 0x02, 0x80}     // GPIEvent port 2, true
+	antenna := []byte{0x00, 0xFF, 0x00, 0x07, 0x01, 0x00, 0x03} // AntennaEvent connected, antenna 3
+	attempt := func(st int) []byte { return []byte{0x01, 0x00, 0x00, 0x06, byte(st >> 8), byte(st)} }
+	switch mode {
+	case '1', '2', '3', '4':
+		st := int(mode - '0')
+		if st%2 == 0 {
+			return ren(gpi, attempt(st))
+		}
+		return ren(attempt(st))
+	case 'n':
+		return ren(antenna)
+	case 'o':
+		// TagReportData{EPC96 (TV 13), ROSpecID (TV 9)} with the time stamp's low bytes as EPC
+		epc := append([]byte{0x8D}, ts[4:]...)
+		epc = append(epc, 0xAA, 0xBB, 0xCC, 0xDD)
+		body := append(epc, 0x89, 0, 0, byte(d), byte(n))
+		return c13First{c15MsgROAccessReport, append([]byte{0x00, 0xF0, 0x00, byte(len(body) + 4)}, body...)}
+	}
+	return c13First{c15MsgReaderEventNotification, c15ConnEvent(0, utc)}
 }
 
 // the n-th connection of device d announces itself with a distinct time stamp
@@ -151,16 +214,31 @@ func (rd *c13Reader) serve() {
 		rd.wmu.Lock()
 		rd.conn = c
 		rd.wmu.Unlock()
-		rd.write(c15Frame(c15MsgReaderEventNotification, 1, c15ConnEvent(0, c13ConnUTC(rd.idx, n))))
+		if tc, ok := c.(*net.TCPConn); ok {
+			tc.SetReadBuffer(256 << 10) // fixed (no autotuning): the 16 MiB request of an F step exceeds what both ends buffer
+		}
+		fm := c13FirstMessage(rd.idx, n, mode)
+		rd.fmu.Lock()
+		rd.first = append(rd.first, fm)
+		rd.fmu.Unlock()
+		rd.write(c15Frame(fm.typ, 1, fm.payload))
 		rd.conns.Add(1)
 		if mode == 'x' {
 			time.Sleep(2 * time.Millisecond)
 			c.Close()
 			continue
 		}
+		if strings.IndexByte("1234no", mode) >= 0 && mode != 0 {
+			// not a successful connection event: the device gives the connection up
+			c.SetReadDeadline(time.Now().Add(2 * time.Second))
+			io.Copy(io.Discard, c)
+			c.Close()
+			continue
+		}
 		okHere := false
+		gc := c13Gated{Conn: c, rd: rd}
 		for {
-			typ, id, payload, err := c15ReadFrame(c)
+			typ, id, payload, err := c15ReadFrame(gc)
 			if err != nil {
 				break
 			}
@@ -228,6 +306,17 @@ func (rd *c13Reader) serve() {
 		}
 		c.Close()
 	}
+}
+
+// request of an 'F' step: 16 MiB of CustomMessage, more than the socket buffers hold, so that the
+// client's writer sits in Write for as long as the reader does not read
+type c13Big struct{}
+
+func (c13Big) Type() llrp.MessageType { return llrp.MsgCustomMessage }
+func (c13Big) MarshalBinary() ([]byte, error) {
+	b := make([]byte, 16<<20)
+	copy(b, []byte{0, 0, 0x65, 0x1A, 9, 0})
+	return b, nil
 }
 
 // request of a 'T' step: a CustomMessage whose first data byte tells the scripted reader how to
@@ -424,6 +513,24 @@ func c13RunScenario(f []string) string {
 		return n
 	}
 
+	countDev := func(name string) int {
+		gmu.Lock()
+		defer gmu.Unlock()
+		n := 0
+		for _, g := range gots {
+			if g.v.DeviceName != name {
+				continue
+			}
+			for _, cv := range g.v.CommandValues {
+				if cv.DeviceResourceName == ResourceROAccessReport || cv.DeviceResourceName == ResourceReaderNotification {
+					n++
+				}
+			}
+		}
+		return n
+	}
+	earlyWant := make([]int, ndev)
+
 	readers := make([]*c13Reader, ndev)
 	names := make([]string, ndev)
 	steps := []*c13Step{}
@@ -539,7 +646,7 @@ func c13RunScenario(f []string) string {
 			if (&llrp.ReaderEventNotification{}).UnmarshalBinary(s.payload) == nil {
 				notes = append(notes, "!badgen:"+st)
 			}
-		case 'K', 'C', 'T', 'U', 'X', 'Z':
+		case 'K', 'C', 'T', 'U', 'X', 'Z', 'F', 'G':
 		case '+':
 			continue
 		default:
@@ -550,6 +657,9 @@ func c13RunScenario(f []string) string {
 			rd := readers[s.dev]
 			rd.early[phase] = append(rd.early[phase], c15Frame(s.typ, uint32(5000+s.idx), s.payload))
 			rd.twoStep = true
+			if s.want != nil {
+				earlyWant[s.dev]++
+			}
 			continue
 		}
 		perDev[s.dev] = append(perDev[s.dev], s)
@@ -578,7 +688,7 @@ func c13RunScenario(f []string) string {
 	}
 
 	var wg sync.WaitGroup
-	var cmdOK, cmdN, kaN, tOK, tN, stuck, noReconnect atomic.Int64
+	var cmdOK, cmdN, kaN, tOK, tN, stuck, noReconnect, heldBack atomic.Int64
 	for di := 0; di < ndev; di++ {
 		wg.Add(1)
 		go func(di int) {
@@ -604,9 +714,60 @@ func c13RunScenario(f []string) string {
 					noReconnect.Add(1)
 				}
 			}
+			// before the reader reads again: everything it sent meanwhile must have been published
+			// already (bounded wait: a measurement)
+			resume := func(k int) {
+				if !rd.paused.Load() {
+					return
+				}
+				rd.fmu.Lock()
+				need := len(rd.first) + earlyWant[di]
+				rd.fmu.Unlock()
+				for _, p := range perDev[di][:k] {
+					// (a successful connection event in mid-stream is published only after the
+					// SetReaderConfig exchange it triggers, which waits for the blocked writer)
+					if p.want != nil && !(p.kind == 'E' && p.variant%7 == 4) {
+						need++
+					}
+				}
+				for dl := time.Now().Add(1500 * time.Millisecond); countDev(names[di]) < need && time.Now().Before(dl); {
+					time.Sleep(2 * time.Millisecond)
+				}
+				if got := countDev(names[di]); got < need {
+					heldBack.Add(int64(need - got))
+				}
+				rd.paused.Store(false)
+			}
+			defer resume(len(perDev[di]))
 			for k, s := range perDev[di] {
 				time.Sleep(delays[s.idx%len(delays)])
 				switch s.kind {
+				case 'F':
+					// the reader's receive side stalls: it stops taking bytes off the wire while a
+					// large request is on its way (so the client's writer blocks in Write), and its
+					// KeepAlive timer fires k times; what follows is sent behind that backlog
+					rd.paused.Store(true)
+					wg.Add(1)
+					mine.Add(1)
+					go func() {
+						defer wg.Done()
+						defer mine.Done()
+						dev, _, err := d.getDevice(names[di], nil)
+						if err != nil {
+							return
+						}
+						ctx, cancel := context.WithTimeout(context.Background(), 15*time.Second)
+						_ = dev.TrySend(ctx, c13Big{}, &llrp.CustomMessage{})
+						cancel()
+					}()
+					time.Sleep(40 * time.Millisecond) // the request fills the socket buffers
+					nka := []int{7, 20, 100}[s.variant%3]
+					for i := 0; i < nka; i++ {
+						kaN.Add(1)
+						rd.write(c15Frame(c15MsgKeepAlive, uint32(900000+1000*s.idx+i), nil))
+					}
+				case 'G':
+					resume(k)
 				case 'U':
 					// EdgeX updates the device: same address (0, nothing should happen, in the
 					// background) or the other address (1: connection closed, reconnect there)
@@ -705,16 +866,33 @@ func c13RunScenario(f []string) string {
 	connSteps := func() []*c13Step {
 		var cs []*c13Step
 		for di, rd := range readers {
-			for n := 0; n < int(rd.conns.Load()); n++ {
+			rd.fmu.Lock()
+			firsts := append([]c13First{}, rd.first...)
+			rd.fmu.Unlock()
+			for n, fm := range firsts {
+				if fm.typ == c15MsgROAccessReport {
+					w := &llrp.ROAccessReport{}
+					if w.UnmarshalBinary(fm.payload) == nil {
+						cs = append(cs, &c13Step{dev: di, idx: c13ConnIdx(di, n), kind: 'R', want: w})
+					}
+					continue
+				}
 				ce := &llrp.ReaderEventNotification{}
-				if ce.UnmarshalBinary(c15ConnEvent(0, c13ConnUTC(di, n))) == nil {
+				if ce.UnmarshalBinary(fm.payload) == nil {
 					cs = append(cs, &c13Step{dev: di, idx: c13ConnIdx(di, n), kind: 'E', want: ce})
+				} else {
+					cs = append(cs, &c13Step{dev: di, idx: c13ConnIdx(di, n), kind: '?'})
 				}
 			}
 		}
 		return cs
 	}
-	want := len(connSteps())
+	want := 0
+	for _, c := range connSteps() {
+		if c.want != nil {
+			want++
+		}
+	}
 	for _, s := range steps {
 		if s.want != nil {
 			want++
@@ -761,7 +939,11 @@ func c13RunScenario(f []string) string {
 	cs := connSteps()
 	var sent []string
 	for _, c := range cs {
-		sent = append(sent, fmt.Sprintf("%d:%d", c.dev, c.idx))
+		if c.kind == '?' {
+			notes = append(notes, fmt.Sprintf("!badgen:first:%d", c.idx))
+			continue
+		}
+		sent = append(sent, fmt.Sprintf("%d:%d:%s", c.dev, c.idx, map[byte]string{'R': "RO", 'E': "REN"}[c.kind]))
 	}
 	steps = append(steps, cs...)
 	devIdx := func(name string) string {
@@ -835,8 +1017,8 @@ func c13RunScenario(f []string) string {
 	for _, rd := range readers {
 		conns += rd.conns.Load()
 	}
-	return fmt.Sprintf("%d %s | acks=%d/%d cmds=%d/%d timed=%d/%d other=%d conns=%d errs=%d stuck=%d noreconnect=%d ms=%d sent=%s", len(toks), strings.Join(toks, " "),
-		acks, kaN.Load(), cmdOK.Load(), cmdN.Load(), tOK.Load(), tN.Load(), other, conns, errs.Load(), stuck.Load(), noReconnect.Load(), time.Since(t0).Milliseconds(), strings.Join(sent, ","))
+	return fmt.Sprintf("%d %s | acks=%d/%d cmds=%d/%d timed=%d/%d other=%d conns=%d errs=%d stuck=%d noreconnect=%d heldback=%d ms=%d sent=%s", len(toks), strings.Join(toks, " "),
+		acks, kaN.Load(), cmdOK.Load(), cmdN.Load(), tOK.Load(), tN.Load(), other, conns, errs.Load(), stuck.Load(), noReconnect.Load(), heldBack.Load(), time.Since(t0).Milliseconds(), strings.Join(sent, ","))
 }
 
 var _ = binary.BigEndian
